@@ -1552,6 +1552,13 @@ func (l *lexer) linebreak() bool {
 			// comment
 			hash = true
 			l.mark(-1)
+		case '\t', ' ':
+			// <blank>
+			if !hash {
+				l.mark(0)
+				continue
+			}
+			fallthrough
 		default:
 			if !hash {
 				l.unread()
